@@ -147,6 +147,7 @@ type Prop struct {
 	Race         bool                  // needs the -race binary and race-log post-processing
 	RaceAdvisory bool                  // race reports are counted in the evidence but are not verdicts of this property
 	CaseTimeout  time.Duration         // wall-clock watchdog per case (inconclusive), default 120s
+	MaxBatch     int                   // at most this many cases per worker process (0 = no limit)
 	Run          func(c *Case) *Result
 	// Post runs in the driver after all cases; it may add violations / counters.
 	Post func(a *Agg)
@@ -542,8 +543,15 @@ func runWorker(p *Prop, tier string, seed uint64, w int, mine []int, workDir, ra
 		if agg.shouldStop() {
 			return
 		}
+		// a worker process gets at most MaxBatch cases (resources of the stand-ins and of the
+		// SDK clients a case leaves behind must not add up over a long run)
+		batch := mine
+		if p.MaxBatch > 0 && len(batch) > p.MaxBatch {
+			batch = mine[:p.MaxBatch]
+		}
+		later := mine[len(batch):]
 		var args []string
-		for _, i := range mine {
+		for _, i := range batch {
 			args = append(args, strconv.Itoa(i))
 		}
 		cmd := exec.Command(selfPath(p.Race), "worker", "-prop", p.ID, "-tier", tier, "-seed", strconv.FormatUint(seed, 10),
@@ -597,11 +605,13 @@ func runWorker(p *Prop, tier string, seed uint64, w int, mine []int, workDir, ra
 			return // the worker was killed by the driver (violation cap reached)
 		}
 		var rest []int
-		for _, i := range mine {
+		for _, i := range batch {
 			if !doneSet[i] && i != current {
 				rest = append(rest, i)
 			}
 		}
+		unfinished := len(rest)
+		rest = append(rest, later...)
 		if current >= 0 {
 			// the worker died during case `current`
 			se := stderr.String()
@@ -613,12 +623,12 @@ func runWorker(p *Prop, tier string, seed uint64, w int, mine []int, workDir, ra
 			agg.Crashes++
 			agg.Violations = append(agg.Violations, v)
 			agg.mu.Unlock()
-		} else if werr != nil && len(rest) > 0 {
+		} else if werr != nil && unfinished > 0 {
 			agg.mu.Lock()
 			agg.Inconclusive = append(agg.Inconclusive, fmt.Sprintf("worker %d exited (%v) between cases: %s", w, werr, firstLines(stderr.String(), 3)))
 			agg.mu.Unlock()
 			// avoid endless respawn loops
-			if len(rest) == len(mine) {
+			if unfinished == len(batch) {
 				return
 			}
 		}
